@@ -3,7 +3,7 @@
    the parameter names and one foreign name) is enumerated completely; the bound is part of each statement. *)
 From Coq Require Import List Arith Bool.
 From C12 Require Import Bind.
-From C05 Require Import ArgParse ArgParseProofs.
+From C05 Require Import ArgParse ArgParseProofs ArgParseUnb ArgParseUnb2 ArgParseUnb3 ArgParseUnb4.
 Import ListNotations.
 
 (* for every signature WITHOUT positional-only parameters the compiled wrapper (with its fast paths) and the
@@ -44,6 +44,72 @@ Proof.
   - exists po_sig2, (mkCall 0 [1]). split; [rewrite H3; discriminate|exact H4].
 Qed.
 Print Assumptions argparse_posonly_refuted.
+
+(* UNBOUNDED (partial): for EVERY parameter list -- any number of positional-only / positional-or-keyword parameters with
+   or without defaults, *args, keyword-only parameters, **kwargs; required positional parameters first (Python syntax),
+   distinct names -- and EVERY purely positional call (any number of arguments, no keywords), the vectorcall wrapper
+   (with its NoArgs/OneArg/Simple fast paths) and the general C parser raise TypeError exactly when CPython's binding
+   rule does.  Proved by induction over the parameter list; no enumeration.  (Bindings: next theorem.  Missing for the
+   full statement: calls WITH keyword arguments -- those stay covered by the bounded theorems above.) *)
+Theorem argparse_positional_accept_unbounded_partial : forall P1 R n,
+  Forall (fun p => kind_eqb (pk p) ARG_POS = true) P1 ->
+  Forall (fun p => kind_eqb (pk p) ARG_POS = false) R ->
+  NoDup (map pname (P1 ++ R)) ->
+  accepted (parse_wrapper (P1 ++ R) (mkCall n [])) = accepted (py_bind (P1 ++ R) (mkCall n []))
+  /\ accepted (parse_general (make_parser (P1 ++ R)) n []) = accepted (py_bind (P1 ++ R) (mkCall n [])).
+Proof. exact positional_accept_both. Qed.
+Print Assumptions argparse_positional_accept_unbounded_partial.
+
+(* UNBOUNDED (partial), bindings: for every parameter list of the Python shape -- required positional parameters, then
+   optional positional ones, then *args / keyword-only / **kwargs in any order; positional-only or not; distinct names --
+   and every purely positional call, the general C parser and CPython's rule have the same outcome: both TypeError, or
+   the same actual in every parameter, the same *args tuple and an empty **kwargs (same_outcome_meaning). *)
+Theorem argparse_positional_bind_unbounded_partial : forall P1 O K n,
+  Forall (fun p => kind_eqb (pk p) ARG_POS = true) P1 ->
+  Forall (fun p => kind_eqb (pk p) ARG_OPT = true) O ->
+  Forall (fun p => is_pos_param p = false) K ->
+  NoDup (map pname (P1 ++ O ++ K)) ->
+  same_outcome (P1 ++ O ++ K) (parse_general (make_parser (P1 ++ O ++ K)) n []) (py_bind (P1 ++ O ++ K) (mkCall n [])) = true.
+Proof. exact positional_bind_unbounded. Qed.
+Print Assumptions argparse_positional_bind_unbounded_partial.
+
+(* UNBOUNDED (partial): on positional calls the value-level reference accepts exactly what C12's transcription of
+   ceval.c accepts, for every parameter list with distinct names (so the two theorems above also hold against cpython_bind) *)
+Theorem py_bind_accepts_iff_cpython_bind_positional_unbounded_partial : forall ps n, NoDup (map pname ps) ->
+  accepted (py_bind ps (mkCall n [])) = bind_ok (cpython_bind (map to_formal ps) (mkCall n [])).
+Proof. exact positional_reference_unbounded. Qed.
+Print Assumptions py_bind_accepts_iff_cpython_bind_positional_unbounded_partial.
+
+(* UNBOUNDED, keywords included: the value-level reference py_bind (which actual lands where) accepts exactly the calls
+   C12's transcription of ceval.c accepts -- for EVERY parameter list with distinct names (positional-only or not, any
+   kinds in any order) and EVERY call with distinct keyword names.  Supersedes py_bind_accepts_iff_cpython_bind_upto4. *)
+Theorem py_bind_accepts_iff_cpython_bind_unbounded : forall ps c, NoDup (map pname ps) -> NoDup (kws c) ->
+  accepted (py_bind ps c) = bind_ok (cpython_bind (map to_formal ps) c).
+Proof. exact reference_accept_unbounded. Qed.
+Print Assumptions py_bind_accepts_iff_cpython_bind_unbounded.
+
+Example reference_unbounded_example :
+  NoDup (map pname [mkP ARG_POS 1 true; mkP ARG_OPT 2 false; mkP ARG_NAMED 3 false; mkP ARG_STAR2 4 false]) /\ NoDup [3; 9; 2] /\
+  accepted (py_bind [mkP ARG_POS 1 true; mkP ARG_OPT 2 false; mkP ARG_NAMED 3 false; mkP ARG_STAR2 4 false] (mkCall 1 [3; 9; 2])) = true.
+Proof. repeat split; try (vm_compute; reflexivity); repeat constructor; simpl; intuition discriminate. Qed.
+
+Example argparse_unbounded_bind_example :
+  let P1 := [mkP ARG_POS 1 true] in let O := [mkP ARG_OPT 2 false] in
+  let K := [mkP ARG_STAR 3 false; mkP ARG_NAMED_OPT 4 false; mkP ARG_STAR2 5 false] in
+  parse_general (make_parser (P1 ++ O ++ K)) 4 [] = Some (mkBound [(1, Some (SPos 0)); (2, Some (SPos 1)); (4, None)] [2; 3] [])
+  /\ forallb (fun p => kind_eqb (pk p) ARG_POS) P1 && forallb (fun p => kind_eqb (pk p) ARG_OPT) O
+     && forallb (fun p => negb (is_pos_param p)) K = true.
+Proof. vm_compute. split; reflexivity. Qed.
+
+(* the hypotheses are satisfiable: def f(a, b, /, c=.., *args, k, o=.., **kw) *)
+Example argparse_unbounded_hyps :
+  let P1 := [mkP ARG_POS 1 true; mkP ARG_POS 2 true] in
+  let R := [mkP ARG_OPT 3 false; mkP ARG_STAR 4 false; mkP ARG_NAMED 5 false; mkP ARG_NAMED_OPT 6 false; mkP ARG_STAR2 7 false] in
+  Forall (fun p => kind_eqb (pk p) ARG_POS = true) P1 /\ Forall (fun p => kind_eqb (pk p) ARG_POS = false) R
+  /\ NoDup (map pname (P1 ++ R)) /\ accepted (py_bind (P1 ++ [mkP ARG_OPT 3 false; mkP ARG_STAR 4 false]) (mkCall 5 [])) = true.
+Proof.
+  simpl. repeat split; repeat constructor; simpl; try (intro H; repeat (destruct H as [H|H]; [discriminate|]); exact H).
+Qed.
 
 Example argparse_example :
   parse_wrapper [mkP ARG_POS 1 false; mkP ARG_OPT 2 false; mkP ARG_STAR 3 false; mkP ARG_NAMED 4 false; mkP ARG_STAR2 5 false]
